@@ -89,3 +89,84 @@ pub fn root_values(pos: &Pos, depth: u8, nodes: &mut u64) -> (Vec<(Move, i16)>, 
     let root = if pos.stm == Side::White { out.iter().map(|x| x.1).max() } else { out.iter().map(|x| x.1).min() };
     (out, root)
 }
+
+/// Memo of exact minimax values (leaves included).  value(position,
+/// plies left) is a pure function (clocks are kept far from the draw threshold by the callers,
+/// see C08's quantifier), so remembering it changes nothing but the time: many histories of one
+/// seed share most of their subtrees by transposition.
+pub struct MinimaxMemo {
+    shards: Vec<std::sync::Mutex<rustc_hash::FxHashMap<(CKey, u8), i16>>>,
+    pub hits: std::sync::atomic::AtomicU64,
+    len: std::sync::atomic::AtomicU64,
+}
+
+impl Default for MinimaxMemo {
+    fn default() -> Self {
+        MinimaxMemo { shards: (0..64).map(|_| Default::default()).collect(), hits: Default::default(), len: Default::default() }
+    }
+}
+
+impl MinimaxMemo {
+    /// bounded: beyond 12 million entries nothing more is remembered (values are then recomputed)
+    fn insert(&self, k: CKey, depth: u8, v: i16) {
+        if self.len.load(std::sync::atomic::Ordering::Relaxed) < 12_000_000 {
+            if self.shard(&k).lock().unwrap().insert((k, depth), v).is_none() {
+                self.len.fetch_add(1, std::sync::atomic::Ordering::Relaxed);
+            }
+        }
+    }
+    fn shard(&self, k: &CKey) -> &std::sync::Mutex<rustc_hash::FxHashMap<(CKey, u8), i16>> {
+        &self.shards[(k[0] ^ k[1] ^ k[2] ^ k[3]) as usize % 64]
+    }
+}
+
+/// `minimax` with the memo (same recursion, same leaf evaluation)
+pub fn minimax_memo(pos: &Pos, board: &mut Board, g: &mut MoveGenerator, depth: u8, nodes: &mut u64, memo: &MinimaxMemo) -> i16 {
+    let k = canon(pos);
+    if let Some(v) = memo.shard(&k).lock().unwrap().get(&(k, depth)) {
+        memo.hits.fetch_add(1, std::sync::atomic::Ordering::Relaxed);
+        return *v;
+    }
+    *nodes += 1;
+    let turn = color_of(pos.stm);
+    if depth == 0 {
+        let v = evaluate::score(board, g, turn, 0);
+        memo.insert(k, 0, v);
+        return v;
+    }
+    let legal = pos.legal_moves();
+    if legal.is_empty() {
+        return evaluate::score(board, g, turn, depth);
+    }
+    let maximizing = pos.stm == Side::White;
+    let mut best = if maximizing { i16::MIN } else { i16::MAX };
+    for m in legal.iter() {
+        let im = impl_move_from_model(m, pos.stm);
+        im.apply(board).expect("oracle: apply");
+        board.toggle_turn();
+        let v = minimax_memo(&pos.make(m), board, g, depth - 1, nodes, memo);
+        board.toggle_turn();
+        im.undo(board).expect("oracle: undo");
+        best = if maximizing { best.max(v) } else { best.min(v) };
+    }
+    memo.insert(k, depth, best);
+    best
+}
+
+pub fn root_values_memo(pos: &Pos, depth: u8, nodes: &mut u64, memo: &MinimaxMemo) -> (Vec<(Move, i16)>, Option<i16>) {
+    let mut board = build_board(pos);
+    let mut g = MoveGenerator::new();
+    let legal = pos.legal_moves();
+    let mut out = Vec::new();
+    for m in legal.iter() {
+        let im = impl_move_from_model(m, pos.stm);
+        im.apply(&mut board).expect("oracle: apply");
+        board.toggle_turn();
+        let v = minimax_memo(&pos.make(m), &mut board, &mut g, depth - 1, nodes, memo);
+        board.toggle_turn();
+        im.undo(&mut board).expect("oracle: undo");
+        out.push((*m, v));
+    }
+    let root = if pos.stm == Side::White { out.iter().map(|x| x.1).max() } else { out.iter().map(|x| x.1).min() };
+    (out, root)
+}
